@@ -15,7 +15,7 @@ PROPS["C09"] = dict(
     namespace="Cfdp.Seg",
     theorems=["merge_inv", "merge_cov", "merge_count", "total_counts_bytes", "merge_bounded",
               "isComplete_iff", "gaps_exact", "gaps_maximal", "C09_history"],
-    engines=["seg"],
+    engines=["seg", "recv"],
     design="§6 C09",
     technique="Lean 4 refinement proof (segment list -> byte set) + differential correspondence with segments.rs",
     level_text=("Kernel-checked theorems over the Lean model of Segments (merge/gaps/is_complete/end): for every "
@@ -31,7 +31,10 @@ PROPS["C09"] = dict(
     rule=("seg engine: every sequence of <=L segments over [0,M) (quick L=3,M=7; thorough L=4,M=6 and L=3,M=8), each followed by "
           "a probe of gaps(a,b) for all a<=b<=M, is_complete(n) for all n<=M, end, len; plus seeded random sequences of 10-120 "
           "segments near offsets 0, 2^16, 2^32, 2^64-4000 with interleaved gaps/is_complete queries. A case is non-trivial "
-          "when some answer differs from the empty/zero answer; distinct = distinct op sequences."),
+          "when some answer differs from the empty/zero answer; distinct = distinct op sequences. "
+          "recv engine as in C04 (recv.rs is the second anchor: has_naks / check_finished are where 'complete exactly when every byte of [0,n) is held' is used): "
+          "its histories include file data beyond the announced size - before and after the EOF - next to holes inside the file, so that the progress counter and "
+          "the segment list disagree; correspondence of the receiver's bookkeeping after every call, oracles complete_without_data / recv_progress."),
     exhaustive_part=True,
     assumptions=["callers respect merge's assert!(start < end) (the receiver only calls it with non-empty data)"],
     unproved=[],
@@ -367,10 +370,11 @@ PROPS["C17"] = dict(
 
 PROPS["C10"] = dict(
     title="Cancel ends both sides and never leaves a partial file",
-    module="Cfdp.Props.C10",
+    module="Cfdp.Props.C10o",
     namespace="Cfdp.Loop",
     theorems=["C10_no_partial", "C10_cancel_freezes", "Cfdp.Recv.C10_recv_cancel", "Cfdp.Recv.C10_recv_peer_cancel",
-              "Cfdp.Recv.C10_recv_cancel_ends", "Cfdp.Send.C10_send_cancel", "Cfdp.Send.C10_send_cancel_ends"],
+              "Cfdp.Recv.C10_recv_cancel_ends", "Cfdp.Send.C10_send_cancel", "Cfdp.Send.C10_send_cancel_ends",
+              "Cfdp.Net.C10_two_party_sender_cancel", "Cfdp.Net.C10_two_party_receiver_cancel"],
     engines=["recv", "send", "daemon"],
     design="§6 C10",
     technique="Lean 4 proofs over the receiver / sender models and the task-loop step (filestore frame + cancel handshake steps) + differential correspondence",
@@ -382,14 +386,14 @@ PROPS["C10"] = dict(
                 "an EOF with an error condition cancels the receiver with that condition (C10_recv_peer_cancel); the cancelled receiver ends on ACK(Finished) or by Abandon "
                 "at the positive-ACK limit (C10_recv_cancel_ends); a user cancel at the sender = Cancelled phase and an EOF with condition CancelReceived and the sender's "
                 "entity id as fault location queued (C10_send_cancel), transmitted when the link is free, and the sender ends by Abandon at the ACK / inactivity limit "
-                "(C10_send_cancel_ends). Bounded time of those ends: C17 + C03. Tie to the code: recv/send engines with cancel injected before/after every PDU."),
+                "(C10_send_cancel_ends). Bounded time of those ends: C17 + C03. The two-party statement is a theorem over the composition of both models and the link (Model/Net.lean; Props/C10n.lean, Props/C10o.lean): in acknowledged mode, from ANY pair of live states - whatever history of the transfer led to them, whatever is still in flight - the handshake over a link that loses nothing from the cancel on (sender: Cancel.request, EOF(cancel) transmitted and delivered, ACK(EOF) and Finished transmitted, Finished delivered, ACK(Finished) transmitted and delivered; receiver: Cancel.request, Finished transmitted and delivered, ACK(Finished) transmitted and delivered) ends BOTH transactions, both with condition CancelReceived, both users get a Finished indication carrying it, and the receiver's filestore is as it was when the cancel took effect (C10_two_party_sender_cancel, C10_two_party_receiver_cancel; eight step lemmas, one per loop iteration of the handshake). Under losses the retransmission and limit theorems above apply. Tie to the code: recv/send engines with cancel injected before/after every PDU."),
     level_note=RECV_SEND_NOTE + " Both-sides-end over a real link (two daemons) is exercised by the daemon engine (C02/C11) when registered; here each side is proved separately.",
     rule=("daemon engine (two real daemons): in every third multi-transaction scenario one acknowledged six-segment transfer is cancelled through its daemon (UserPrimitive::Cancel) right after its Put - oracles daemon_cancel (the sender reports CancelReceived or, when the receiver had completed before the cancel took effect, has at least transmitted its EOF(Cancel received)), daemon_cancel_no_file, daemon_cancel_ends; or it is cancelled at the RECEIVING daemon 100 ms after the Put while every EOF of that sender stays on the link for 450 ms - oracle daemon_cancel_recv (receiver and sender both report CancelReceived, nothing under the destination name, both ended); the other transactions must be unaffected (C11 others_unaffected). recv + send engines as in C04/C07: one history in three contains a user request at a random position (cancel / suspend-resume / EOF(cancel) from the peer / report), "
           "followed by losses of the handshake PDUs (wind-down rounds without answers) or the ACK at a random round. Oracles no_partial (filestore listing before/after every "
           "step), cancel_closure_finished. Non-trivial = a PDU was emitted or an indication raised."),
     assumptions=["C10_no_partial second part: the handler configured for CheckLimitReached is not Ignore (with Ignore an incomplete unacknowledged transfer is stored on purpose, "
                  "with delivery code Incomplete - finding F31)"],
-    unproved=["that both entities end with the cancel condition over a real two-party exchange (needs the composition of both models; daemon engine)"],
+    unproved=["the two-party theorems cover the handshake over a link that loses nothing once the cancel is issued; that every fair schedule with losses within the limits also ends both sides with the cancel condition is checked by the net / daemon engines (and bounded by the limit theorems), not composed into one theorem"],
 )
 
 PROPS["C13"] = dict(
